@@ -89,7 +89,12 @@ class ArgSpec:
             case int():
                 return str(arg)
             case float():
-                return str(arg)
+                text = str(arg)
+                if "e" in text and "." not in text:
+                    # The lexer only reads an exponent after a decimal point,
+                    # `1e+22` would not be parsed as a number.
+                    text = text.replace("e", ".0e")
+                return text
 
     @staticmethod
     def _spec_parameter_list_type_str(name: str, arg: ParameterListType) -> str:
